@@ -51,6 +51,7 @@ struct routing_request *alloc_routing_request(const struct peer *requesting_peer
 int handle_routing_response(const cJSON *json_rpc, const cJSON *response, const char *result_type,
                             const struct peer *p);
 
+void cancel_routing_request(struct routing_request *request);
 void remove_routing_info_from_peer(const struct peer *p);
 void remove_peer_from_routing_table(const struct peer *p,
                                     const struct peer *peer_to_remove);
